@@ -27,7 +27,7 @@ PROPS = {
     "C07": dict(engine="world", level="exploration", inject=LOCKPKGS),
     "C12": dict(engine="world", level="exploration", hang_is_lockup=True, inject=LOCKPKGS),
     "C05": dict(engine="watcher", level="exploration", inject=LOCKPKGS),
-    "C18": dict(engine="relay", level="exploration", race=True, inject=["wire/relay.go", "wire/cache.go", "wire/receiver.go"]),
+    "C18": dict(engine="relay", level="exploration", race=True, hang_is_lockup=True, inject=["wire/relay.go", "wire/cache.go", "wire/receiver.go"]),
     "C20": dict(engine="multi", level="exploration", race=True),
 }
 
